@@ -1,11 +1,11 @@
 CONSTANTS
   Ctxs = {1, 2}
   Names = {"x"}
-  Boxes = {1, 2}
+  Boxes = {2}
   Vals = {0, 1}
   MaxStack = 1
   MaxOps <- NoLimit
-  OpKinds = {"set", "del", "release", "push", "pop", "release_stack", "cleanup", "spawn"}
+  OpKinds = {"set", "push", "pop", "proxy_mutate", "spawn"}
   Made0 <- AllMade
 INIT Init
 NEXT Next
